@@ -50,6 +50,8 @@ func createCron(node gen.Node) *cron {
 	now := time.Now()
 	next := now.Add(time.Minute).Truncate(time.Minute)
 	in := next.Sub(now)
+	// jobs added before the first tick are scheduled for this minute
+	c.next = next
 
 	c.timer = time.AfterFunc(in, func() {
 		if node.IsAlive() == false {
